@@ -15,6 +15,7 @@ CONSTANTS
   WriteLock = TRUE
   AtomicDown = TRUE
   CompleteOnDownError = TRUE
+  CloseBeforeSwap = TRUE
   MaxFaults = 0
   MaxCancels = 0
   AllowClose = FALSE
